@@ -241,5 +241,5 @@ def run_prog(W, cfg):
 
 HARNESSES = {
     'one_step': {'configs': cfg_step, 'run': run_step},
-    'programs': {'configs': cfg_prog, 'run': run_prog, 'validate_paths': 0},
+    'programs': {'configs': cfg_prog, 'run': run_prog, 'validate_paths': 1},
 }
